@@ -185,4 +185,424 @@ theorem cferFinishDefeats_spec (hA : LawfulArith A) {s : St α} (hE : InvE A s) 
     · exact sumHE_transferDefeated A _ _ _
     · unfold sumHE nHop nEl; omega
 
+/-! ## the CfER batch leaves enough candidates -/
+theorem cferBatch_go_enough (s : St α) (surplus : α) (cands : List (Cand α)) (nE : Nat) (top : Option (Cand α)) :
+    ∀ (fuel t : Nat) (best : List (Cand α)),
+      (best = [] ∨ (s.seats ≤ (cands.length - best.length) + nE ∧ best.length ≤ cands.length)) →
+      (cferBatch.go A s surplus cands nE top t fuel best = []
+        ∨ (s.seats ≤ (cands.length - (cferBatch.go A s surplus cands nE top t fuel best).length) + nE
+            ∧ (cferBatch.go A s surplus cands nE top t fuel best).length ≤ cands.length)) := by
+  intro fuel
+  induction fuel with
+  | zero => intro t best hb; unfold cferBatch.go; exact hb
+  | succ n ih =>
+    intro t best hb
+    unfold cferBatch.go
+    dsimp only
+    split
+    · exact hb
+    · rename_i hlt
+      split
+      · split
+        · exact hb
+        · rename_i hen
+          split
+          · exact ih _ _ hb
+          · split
+            · apply ih
+              right
+              have hl : (cands.take (t + 1)).length = t + 1 := by
+                rw [List.length_take]; omega
+              rw [hl]
+              omega
+            · exact ih _ _ hb
+      · exact hb
+
+theorem cferBatch_enough (s : St α) (hne : cferBatch A s ≠ []) :
+    s.seats ≤ (nHop s - (cferBatch A s).length) + nEl s ∧ (cferBatch A s).length ≤ nHop s := by
+  have hlen : (byVote A false s.hopeful).length = nHop s := (pySorted_perm _ _ _).length_eq
+  have := cferBatch_go_enough A s (A.sum (s.pendingL.map (fun c => A.sub c.vote s.quota))) (byVote A false s.hopeful)
+    s.elected.length (byVote A false s.hopeful).getLast? (byVote A false s.hopeful).length 0 [] (Or.inl rfl)
+  unfold cferBatch at hne ⊢
+  dsimp only at hne ⊢
+  rcases this with h | h
+  · exact absurd h hne
+  · obtain ⟨h1, h2⟩ := h
+    unfold nEl
+    constructor <;> omega
+
+/-! ## one round -/
+
+/-- what the part of a round after the election step hands back, relative to the state `s` it started from -/
+def RoundOK (s : St α) (r : St α × Flow) : Prop :=
+  Ext s r.1 ∧ (r.2 = .brk → Done A r.1)
+  ∧ (r.2 = .cont → InvE A r.1 ∧ Mon r.1 ∧ Frame s r.1 ∧ r.1.seats < sumHE r.1
+      ∧ (mu r.1 < mu s ∨ r.1.crash.isSome = true))
+
+theorem cferDefeatBatch_spec (hA : LawfulArith A) {s : St α} (hE : InvE A s) (hM : Mon s) (defeats : List (Cand α))
+    (hsub : ∀ w ∈ defeats, w ∈ s.hopeful) (hnd : (defeats.map (·.cid)).Nodup) (hne : defeats ≠ [])
+    (hen : s.seats ≤ (nHop s - defeats.length) + nEl s) (hlen : defeats.length ≤ nHop s) :
+    RoundOK A s (cferDefeatBatch A s defeats) := by
+  unfold cferDefeatBatch
+  obtain ⟨a1, a2, a3, a4, a5, a6, a7, a8, _, a10⟩ := defeatMany_spec A hE hM defeats (byBallotOrder defeats) "Defeat batch"
+    (pySorted_perm _ _ _) hnd hsub
+  generalize (byBallotOrder defeats).foldl (fun acc c => acc.defeat A c.cid "Defeat batch") s = s1 at *
+  have hge : s1.seats ≤ sumHE s1 := by rw [a7.2.1]; unfold sumHE; omega
+  obtain ⟨b1, b2, b3⟩ := cferFinishDefeats_spec A hA a1 a2 defeats a3 a4 hge
+  refine ⟨a8.trans b1, b2, ?_⟩
+  intro hc
+  obtain ⟨c1, c2, c3, c4, c5, c6⟩ := b3 hc
+  refine ⟨c1, c2, a7.trans c3, ?_, Or.inl ?_⟩
+  · rw [c3.2.1, c5]; exact c6
+  · have : 0 < defeats.length := List.length_pos_of_ne_nil hne
+    rw [c4]; omega
+
+theorem cferDefeatLow_cases (s : St α) :
+    (minVoteOf A s.hopeful = none ∧ cferDefeatLow A s = (s.setCrash "ValueError", .brk)) ∨
+    ∃ tied : List (Cand α), (∀ c ∈ tied, c ∈ s.hopeful) ∧
+      (((breakTie A s tied "Break tie (defeat)").2 = none
+          ∧ cferDefeatLow A s = ((breakTie A s tied "Break tie (defeat)").1, .brk)) ∨
+       (∃ lc, (breakTie A s tied "Break tie (defeat)").2 = some lc
+          ∧ cferDefeatLow A s = cferFinishDefeats A ((breakTie A s tied "Break tie (defeat)").1.defeat A lc.cid "Defeat") [lc])) := by
+  unfold cferDefeatLow
+  cases hm : minVoteOf A s.hopeful with
+  | none => left; exact ⟨rfl, rfl⟩
+  | some lv =>
+    right
+    refine ⟨s.hopeful.filter (fun c => A.eq c.vote lv), fun c hc => (List.mem_filter.1 hc).1, ?_⟩
+    dsimp only
+    cases hb : breakTie A s (s.hopeful.filter (fun c => A.eq c.vote lv)) "Break tie (defeat)" with
+    | mk s1 oc =>
+      cases oc with
+      | none => left; exact ⟨rfl, rfl⟩
+      | some lc => right; exact ⟨lc, rfl, rfl⟩
+
+theorem cferDefeatLow_spec (hA : LawfulArith A) {s : St α} (hE : InvE A s) (hM : Mon s) (hgt : s.seats < sumHE s) :
+    RoundOK A s (cferDefeatLow A s) := by
+  rcases cferDefeatLow_cases A s with ⟨_, e⟩ | ⟨tied, hsub, ⟨hb, e⟩ | ⟨lc, hb, e⟩⟩
+  · rw [e]
+    refine ⟨ext_setCrash s _, fun _ => Done.of_crash A ⟨hE.1.setCrash A _, hM.setCrash _⟩ (setCrash_isSome s _), ?_⟩
+    intro hc; cases hc
+  · rw [e]
+    refine ⟨ext_breakTie A s _ _, fun _ => Done.of_crash A ⟨hE.1.breakTie A _ _, hM.breakTie A _ _⟩
+      (breakTie_none_crash A s tied _ hb), ?_⟩
+    intro hc; cases hc
+  · rw [e]
+    have hfr := breakTie_frame A s tied "Break tie (defeat)"
+    have hE1 : InvE A (breakTie A s tied "Break tie (defeat)").1 := ⟨hE.1.breakTie A _ _, EHQ.breakTie A hE.2 _ _⟩
+    have hM1 := hM.breakTie A tied "Break tie (defeat)"
+    have hF1 := frame_breakTie A s tied "Break tie (defeat)"
+    have hX1 := ext_breakTie A s tied "Break tie (defeat)"
+    have hmu1 := mu_breakTie A s tied "Break tie (defeat)"
+    have hS1 := sumHE_breakTie A s tied "Break tie (defeat)"
+    have hlm := breakTie_mem A s tied "Break tie (defeat)" lc hb
+    have hl1 : lc ∈ (breakTie A s tied "Break tie (defeat)").1.hopeful := by
+      obtain ⟨hcs, hch⟩ := mem_hopeful.1 (hsub lc hlm)
+      apply mem_hopeful.2
+      rw [hfr.1]; exact ⟨hcs, hch⟩
+    generalize (breakTie A s tied "Break tie (defeat)").1 = s1 at *
+    obtain ⟨a1, a2, a3, a4, a5, a6, a7, a8, _, a10⟩ := defeatMany_spec A hE1 hM1 [lc] [lc] "Defeat" (List.Perm.refl _)
+      (by simp) (by intro w hw; simp at hw; rw [hw]; exact hl1)
+    simp only [List.foldl_cons, List.foldl_nil, List.map_cons, List.map_nil, List.length_cons, List.length_nil] at a1 a2 a3 a4 a5 a6 a7 a8 a10
+    have hge : (s1.defeat A lc.cid "Defeat").seats ≤ sumHE (s1.defeat A lc.cid "Defeat") := by
+      rw [a7.2.1, hF1.2.1]; unfold sumHE at hgt hS1 ⊢; omega
+    obtain ⟨b1, b2, b3⟩ := cferFinishDefeats_spec A hA a1 a2 [lc] (by simpa using a3) (by simpa using a4) hge
+    refine ⟨hX1.trans (a8.trans b1), b2, ?_⟩
+    intro hc
+    obtain ⟨c1, c2, c3, c4, c5, c6⟩ := b3 hc
+    refine ⟨c1, c2, hF1.trans (a7.trans c3), ?_, Or.inl ?_⟩
+    · rw [c3.2.1, c5]; exact c6
+    · rw [c4]; omega
+
+theorem cferAfterElect_spec (hA : LawfulArith A) (batch : Bool) {s : St α} (hE : InvE A s) (hM : Mon s)
+    (hD : DroopQuota A s) (hgt : s.seats < sumHE s) : RoundOK A s (cferAfterElect A batch s) := by
+  have hel : nEl s ≤ s.seats := elected_le_seats A hE.1 hE.2 hD
+  unfold cferAfterElect
+  by_cases hfull : s.elected.length ≥ s.seats
+  · rw [if_pos hfull]
+    obtain ⟨hd, hx⟩ := cferSeatsFull_spec A (s := s) ⟨hE.1, hM⟩ (by unfold nEl at *; omega)
+    refine ⟨hx, fun _ => hd, ?_⟩
+    intro hc; cases hc
+  · rw [if_neg hfull]
+    by_cases hb : (if batch then cferBatch A s else []).isEmpty = false
+    · simp only [hb, Bool.not_false, if_true]
+      cases batch with
+      | false => simp at hb
+      | true =>
+        simp only [if_true] at hb ⊢
+        have hne : cferBatch A s ≠ [] := by intro e; rw [e] at hb; simp at hb
+        obtain ⟨h1, h2⟩ := cferBatch_enough A s hne
+        exact cferDefeatBatch_spec A hA hE hM _ (cferBatch_hopeful A s) (cferBatch_nodup A s hE.1.wf) hne h1 h2
+    · have hb' : (if batch then cferBatch A s else []).isEmpty = true := by simpa using hb
+      simp only [hb', Bool.not_true, Bool.false_eq_true, if_false]
+      by_cases hp : s.pendingL.isEmpty = false
+      · simp only [hp, Bool.not_false, if_true]
+        obtain ⟨a1, a2, a3, a4, a5, a6⟩ := cferSurplusAll_spec A hA hE hM
+        refine ⟨a4, ?_, ?_⟩
+        · intro hc; cases hc
+        · intro _
+          refine ⟨a1, a2, a3, ?_, Or.inl ?_⟩
+          · show (cferSurplusAll A s).seats < sumHE (cferSurplusAll A s)
+            rw [a3.2.1, a6]; exact hgt
+          · have : 0 < s.pendingL.length := by
+              cases hl : s.pendingL with
+              | nil => rw [hl] at hp; simp at hp
+              | cons x xs => simp
+            show mu (cferSurplusAll A s) < mu s
+            omega
+      · have hp' : s.pendingL.isEmpty = true := by simpa using hp
+        simp only [hp', Bool.not_true, Bool.false_eq_true, if_false]
+        exact cferDefeatLow_spec A hA hE hM hgt
+
+/-- loop invariant of the CfER driver -/
+def CferInv (s : St α) : Prop :=
+  InvE A s ∧ Mon s ∧ DroopQuota A s
+  ∧ (s.round = 0 → nEl s = 0 ∧ s.seats ≤ nHop s) ∧ (s.round ≠ 0 → s.seats < sumHE s)
+
+theorem cferBody_spec (hA : LawfulArith A) (hex : A.exact = false) (batch : Bool) {s : St α} (h : CferInv A s) :
+    Ext s (cferBody A batch s).1 ∧ ((cferBody A batch s).2 = .brk → Done A (cferBody A batch s).1)
+    ∧ ((cferBody A batch s).2 = .cont → InvE A (cferBody A batch s).1 ∧ Mon (cferBody A batch s).1
+        ∧ Frame s (cferBody A batch s).1 ∧ (cferBody A batch s).1.seats < sumHE (cferBody A batch s).1
+        ∧ (mu (cferBody A batch s).1 < mu s ∨ (cferBody A batch s).1.crash.isSome = true)) := by
+  obtain ⟨hE, hM, hD, hr0, hr1⟩ := h
+  have hE1 : InvE A (s.newRound A) := ⟨hE.1.newRound A, EHQ.newRound A hE.2⟩
+  have hM1 := hM.newRound A
+  have hF1 := frame_newRound A s
+  have hX1 := ext_newRound A s
+  have hrnd := round_newRound A s
+  have hcnt1 : nHop (s.newRound A) = nHop s ∧ nEl (s.newRound A) = nEl s := by
+    unfold St.newRound; rw [nHop_logAct, nEl_logAct]; exact ⟨rfl, rfl⟩
+  unfold cferBody
+  by_cases hfirst : ((s.newRound A).round == 1 && decide ((s.newRound A).hopeful.length ≤ (s.newRound A).seats)) = true
+  · rw [if_pos hfirst]
+    simp only [Bool.and_eq_true, beq_iff_eq, decide_eq_true_eq] at hfirst
+    have hs0 : s.round = 0 := by omega
+    obtain ⟨h0, hen⟩ := hr0 hs0
+    obtain ⟨hd, hx⟩ := cferElectAll_spec A (s := s.newRound A) ⟨hE1.1, hM1⟩ (by rw [hcnt1.2]; exact h0)
+      (by unfold nHop; exact hfirst.2) (by rw [hF1.2.1, hcnt1.1]; exact hen)
+    refine ⟨hX1.trans hx, fun _ => hd, ?_⟩
+    intro hc
+    unfold cferElectAll at hc; cases hc
+  · rw [if_neg hfirst]
+    have hgt1 : (s.newRound A).seats < sumHE (s.newRound A) := by
+      rw [hF1.2.1, sumHE_newRound]
+      by_cases hs0 : s.round = 0
+      · obtain ⟨h0, hen⟩ := hr0 hs0
+        have hone : ((s.newRound A).round == 1) = true := by rw [hrnd, hs0]; rfl
+        simp only [hone, Bool.true_and, decide_eq_true_eq, not_le] at hfirst
+        have : nHop s = (s.newRound A).hopeful.length := hcnt1.1.symm
+        rw [hF1.2.1] at hfirst
+        unfold sumHE; omega
+      · exact hr1 hs0
+    -- the election step
+    have hsound : ∀ c, hasQuotaGE A (s.newRound A) c = true → (s.newRound A).quota ≤ c.vote :=
+      fun c hc => hasQuotaGE_sound A hA hex _ c hc
+    have hE2 : InvE A (cferElect A (s.newRound A)) := by unfold cferElect; exact hE1.electWinners A _ _ _ hsound
+    have hM2 : Mon (cferElect A (s.newRound A)) := by
+      unfold cferElect; exact (InvM.electWinners A ⟨hE1.1, hM1⟩ _ _ _ hsound).2
+    have hF2 : Frame (s.newRound A) (cferElect A (s.newRound A)) := by unfold cferElect; exact frame_electWinners A _ _ _ _
+    have hX2 : Ext (s.newRound A) (cferElect A (s.newRound A)) := by unfold cferElect; exact ext_electWinners A _ _ _ _
+    have hmu2 : mu (cferElect A (s.newRound A)) ≤ mu s := by
+      rw [← mu_newRound A s]; unfold cferElect; exact mu_electWinners_le A hE1.1 _ _ _ hsound
+    have hS2 : sumHE (cferElect A (s.newRound A)) = sumHE (s.newRound A) := by
+      unfold cferElect; exact sumHE_electWinners A hE1.1 _ _ _ hsound
+    have hD2 : DroopQuota A (cferElect A (s.newRound A)) := hD.of_frame A (hF1.trans hF2)
+    have hgt2 : (cferElect A (s.newRound A)).seats < sumHE (cferElect A (s.newRound A)) := by rw [hF2.2.1, hS2]; exact hgt1
+    obtain ⟨b1, b2, b3⟩ := cferAfterElect_spec A hA batch hE2 hM2 hD2 hgt2
+    refine ⟨hX1.trans (hX2.trans b1), b2, ?_⟩
+    intro hc
+    obtain ⟨c1, c2, c3, c4, c5⟩ := b3 hc
+    refine ⟨c1, c2, hF1.trans (hF2.trans c3), c4, ?_⟩
+    rcases c5 with c5 | c5
+    · left; omega
+    · right; exact c5
+
+/-! ## the start of a Gregory count -/
+
+/-- `initialize` + first count + "Begin Count", as every Gregory driver of the model starts -/
+def gInit (q : α) (s0 : St α) : St α :=
+  ((firstCount A (s0.setQuota q)).setExhausted A.zero).logAct A "begin" "Begin Count" []
+
+theorem fcStep_round (s : St α) (b : Ballot α) : (fcStep A s b).round = s.round := by
+  unfold fcStep; split <;> rfl
+
+theorem gInit_facts (q : α) (s0 : St α) :
+    (gInit A q s0).skel = s0.skel ∧ (gInit A q s0).nballots = s0.nballots ∧ (gInit A q s0).seats = s0.seats
+    ∧ (gInit A q s0).quota = q ∧ (gInit A q s0).round = s0.round ∧ Ext s0 (gInit A q s0)
+    ∧ (s0.acts = [] → Mon (gInit A q s0)) := by
+  unfold gInit
+  obtain ⟨_, _, f3, f4, _, _⟩ := foldl_fcStep_frame A (s0.setQuota q).ballots (s0.setQuota q)
+  refine ⟨?_, ?_, ?_, ?_, ?_, ?_, ?_⟩
+  · unfold St.skel; rw [logAct_cands]
+    show ((firstCount A (s0.setQuota q)).setExhausted A.zero).skel = _
+    rw [firstCount_eq]; exact foldl_fcStep_skel A _ _
+  · rw [(logAct_frame A _ _ _ _).2.2.2.2]
+    show (firstCount A _).nballots = _
+    rw [firstCount_eq]; exact f4
+  · rw [logAct_seats]
+    show (firstCount A _).seats = _
+    rw [firstCount_eq]; exact foldl_fcStep_seats A _ _
+  · rw [logAct_quota]
+    show (firstCount A _).quota = _
+    rw [firstCount_eq]; exact f3
+  · rw [round_logAct]
+    show (firstCount A _).round = _
+    rw [firstCount_eq]
+    exact round_foldl (fcStep A) (fcStep_round A) _ _
+  · refine Ext.trans (Ext.of_acts_eq ?_) (ext_logAct A _ _ _ _)
+    show (firstCount A _).acts = _
+    rw [firstCount_acts]; rfl
+  · intro h
+    apply Mon.logAct
+    apply Mon.of_noActs
+    show (firstCount A _).acts = []
+    rw [firstCount_acts]; exact h
+
+theorem nEl_zero_of_fresh {s : St α} (h : ∀ c ∈ s.cands, c.st ≠ .elected) : nEl s = 0 := by
+  unfold nEl St.elected
+  rw [List.length_eq_zero_iff, List.filter_eq_nil_iff]
+  intro c hc
+  simpa using h c hc
+
+/-- what a Gregory rule is handed: `Init`, a positive quota, nobody elected yet, at least as many candidates standing as
+    seats, the round counter at zero; `droop` is the Droop condition `nballots < (seats+1)·quota` on the rule's quota -/
+structure GStart (q : α) (s0 : St α) : Prop where
+  init : Init A s0
+  quota_pos : 0 < q
+  fresh : ∀ c ∈ s0.cands, c.st ≠ .elected
+  enough : s0.seats ≤ nHop s0
+  round0 : s0.round = 0
+  droop : ((s0.nballots : Int) : α) * A.one < ((s0.seats + 1 : Nat) : α) * q
+
+theorem GStart.facts (hA : LawfulArith A) {q : α} {s0 : St α} (h : GStart A q s0) :
+    InvE A (gInit A q s0) ∧ Mon (gInit A q s0) ∧ DroopQuota A (gInit A q s0) ∧ (gInit A q s0).round = 0
+    ∧ nEl (gInit A q s0) = 0 ∧ (gInit A q s0).seats ≤ nHop (gInit A q s0) ∧ (gInit A q s0).cands.length = s0.cands.length
+    ∧ Ext s0 (gInit A q s0) := by
+  obtain ⟨hsk, e1, e2, e3, e4, hx, hm⟩ := gInit_facts A q s0
+  have hI : Inv A (gInit A q s0) := Inv.init A hA q h.init h.quota_pos
+  have hfresh : ∀ c ∈ (gInit A q s0).cands, c.st ≠ .elected := by
+    intro c hc
+    obtain ⟨c0, hc0, hcs⟩ := mem_of_skel_eq hsk hc
+    rw [← (skel_st hcs).1]; exact h.fresh c0 hc0
+  refine ⟨⟨hI, EHQ.of_noElected hfresh⟩, hm h.init.noActs, ?_, e4.trans h.round0, nEl_zero_of_fresh hfresh, ?_, ?_, hx⟩
+  · unfold DroopQuota; rw [e1, e2, e3]; exact h.droop
+  · rw [e2, (counts_of_skel hsk).1]; exact h.enough
+  · have hl := congrArg List.length hsk
+    unfold St.skel at hl; simpa using hl
+
+/-! ## the whole CfER count -/
+theorem cferInit_eq (s0 : St α) :
+    cferInit A s0 = gInit A (A.add (A.divV (A.ofInt s0.nballots) (A.ofInt (s0.seats + 1))) A.eps) s0 := rfl
+
+abbrev cferQuota (s0 : St α) : α := A.add (A.divV (A.ofInt s0.nballots) (A.ofInt (s0.seats + 1))) A.eps
+
+theorem CferInv.init (hA : LawfulArith A) {s0 : St α} (h : GStart A (cferQuota A s0) s0) : CferInv A (cferInit A s0) := by
+  rw [cferInit_eq]
+  obtain ⟨a1, a2, a3, a4, a5, a6, _, _⟩ := h.facts A hA
+  exact ⟨a1, a2, a3, fun _ => ⟨a5, a6⟩, fun hne => absurd a4 hne⟩
+
+/-! ### only `newRound` moves the round counter -/
+theorem round_foldElect (l : List (Cand α)) (verb : String) (p : Bool) (s : St α) :
+    (l.foldl (fun acc c => acc.elect A c.cid verb p) s).round = s.round :=
+  round_foldl (fun (acc : St α) (c : Cand α) => acc.elect A c.cid verb p) (fun t c => round_elect A t c.cid verb p) l s
+
+theorem round_foldDefeat (l : List (Cand α)) (verb : String) (s : St α) :
+    (l.foldl (fun acc c => acc.defeat A c.cid verb) s).round = s.round :=
+  round_foldl (fun (acc : St α) (c : Cand α) => acc.defeat A c.cid verb) (fun t c => round_defeat A t c.cid verb) l s
+
+theorem round_foldUnpend (l : List (Cand α)) (s : St α) :
+    (l.foldl (fun acc c => acc.unpendSilent c.cid) s).round = s.round :=
+  round_foldl (fun (acc : St α) (c : Cand α) => acc.unpendSilent c.cid) (fun _ _ => rfl) l s
+
+theorem round_cferFinishDefeats (s : St α) (defeats : List (Cand α)) :
+    (cferFinishDefeats A s defeats).1.round = s.round := by
+  unfold cferFinishDefeats
+  split
+  · dsimp only; rw [round_foldElect, round_foldElect]
+  · exact round_transferDefeated A _ _ _
+
+theorem round_cferSurplusOne (s : St α) (c : Cand α) : (cferSurplusOne A s c).round = s.round := by
+  unfold cferSurplusOne
+  split
+  · rw [round_transferSurplus, round_unpendLog]
+  · rfl
+
+theorem round_cferSeatsFull (s : St α) : (cferSeatsFull A s).1.round = s.round := by
+  unfold cferSeatsFull; dsimp only; rw [round_foldDefeat, round_foldUnpend]
+
+theorem round_cferDefeatBatch (s : St α) (defeats : List (Cand α)) : (cferDefeatBatch A s defeats).1.round = s.round := by
+  unfold cferDefeatBatch; rw [round_cferFinishDefeats, round_foldDefeat]
+
+theorem round_cferSurplusAll (s : St α) : (cferSurplusAll A s).round = s.round := by
+  unfold cferSurplusAll; exact round_foldl (cferSurplusOne A) (round_cferSurplusOne A) _ _
+
+theorem round_cferDefeatLow (s : St α) : (cferDefeatLow A s).1.round = s.round := by
+  rcases cferDefeatLow_cases A s with ⟨_, e⟩ | ⟨tied, _, ⟨_, e⟩ | ⟨lc, _, e⟩⟩
+  · rw [e]; exact round_setCrash s _
+  · rw [e]; exact round_breakTie A s _ _
+  · rw [e, round_cferFinishDefeats, round_defeat]; exact round_breakTie A s _ _
+
+theorem round_cferAfterElect (batch : Bool) (s : St α) : (cferAfterElect A batch s).1.round = s.round := by
+  unfold cferAfterElect
+  repeat' split
+  all_goals first
+    | exact round_cferSeatsFull A s
+    | exact round_cferDefeatBatch A s _
+    | exact round_cferSurplusAll A s
+    | exact round_cferDefeatLow A s
+
+theorem round_cferBody (batch : Bool) (s : St α) : (cferBody A batch s).1.round = s.round + 1 := by
+  unfold cferBody
+  split
+  · unfold cferElectAll; dsimp only; rw [round_foldElect]; exact round_newRound A s
+  · rw [round_cferAfterElect]
+    unfold cferElect; rw [round_electWinners]; exact round_newRound A s
+
+/-- **the round invariant is kept by every round that continues** -/
+theorem CferInv.step (hA : LawfulArith A) (hex : A.exact = false) (batch : Bool) {s : St α} (h : CferInv A s)
+    (hc : (cferBody A batch s).2 = .cont) : CferInv A (cferBody A batch s).1 := by
+  obtain ⟨c1, c2, c3, c4, _⟩ := (cferBody_spec A hA hex batch h).2.2 hc
+  have hr := round_cferBody A batch s
+  exact ⟨c1, c2, h.2.2.1.of_frame A c3, fun h0 => by omega, fun _ => c4⟩
+
+/-- **C01 (termination), cfer and cfer-batch**: the count returns for every legitimate start -/
+theorem cferCount_terminates (hA : LawfulArith A) (hex : A.exact = false) (batch : Bool) (s0 : St α)
+    (h0 : GStart A (cferQuota A s0) s0) : ∃ t, cferCount A batch s0 = some t := by
+  have hinit := CferInv.init A hA h0
+  have hlen : (cferInit A s0).cands.length = s0.cands.length := by rw [cferInit_eq]; exact (h0.facts A hA).2.2.2.2.2.2.1
+  have hfuel : mu (cferInit A s0) + 2 ≤ 2 * s0.cands.length + 3 := by
+    have := mu_le_two_mul (cferInit A s0)
+    omega
+  unfold cferCount
+  exact loopN_total2 (CferInv A) (fun _ => true) (cferBody A batch)
+    (fun s hs _ hc => hs.step A hA hex batch hc)
+    (fun s hs _ hc => ((cferBody_spec A hA hex batch hs).2.2 hc).2.2.2.2)
+    (2 * s0.cands.length + 3) (cferInit A s0) hinit (by omega) (Or.inr hfuel)
+
+/-- **C01 / C09, cfer and cfer-batch**: whatever the count returns has a forward-only, append-only record, and unless the
+    crash flag is up exactly `seats` candidates are elected and nobody is left hopeful -/
+theorem cfer_result (hA : LawfulArith A) (hex : A.exact = false) (batch : Bool) (s0 t : St α)
+    (h0 : GStart A (cferQuota A s0) s0) (h : cferCount A batch s0 = some t) :
+    RecMon (snaps t.acts) ∧ Ext s0 t ∧ (t.crash = none → nEl t = t.seats ∧ nHop t = 0) := by
+  have hinit := CferInv.init A hA h0
+  unfold cferCount at h
+  have hX : Ext (cferInit A s0) t := loopN_ext (CferInv A) (fun _ => true) (cferBody A batch)
+    (fun s hs _ hc => hs.step A hA hex batch hc) (fun s hs _ => (cferBody_spec A hA hex batch hs).1) _ _ _ hinit h
+  have hX0 : Ext s0 (cferInit A s0) := by rw [cferInit_eq]; exact (h0.facts A hA).2.2.2.2.2.2.2
+  rcases loopN_result (CferInv A) (Done A) (fun _ => true) (cferBody A batch)
+    (fun s hs _ hc => hs.step A hA hex batch hc) (fun s hs _ hc => (cferBody_spec A hA hex batch hs).2.1 hc)
+    _ _ _ hinit h with ⟨hP, hstop⟩ | hQ
+  · refine ⟨hP.2.1.1, hX0.trans hX, ?_⟩
+    intro hcr
+    rcases hstop with hs | hs
+    · rw [hcr] at hs; simp at hs
+    · simp at hs
+  · exact ⟨hQ.1.2.1, hX0.trans hX, hQ.2⟩
+
+theorem cfer_seats_filled (hA : LawfulArith A) (hex : A.exact = false) (batch : Bool) (s0 : St α)
+    (h0 : GStart A (cferQuota A s0) s0) :
+    ∃ t, cferCount A batch s0 = some t ∧ (t.crash = none → nEl t = t.seats ∧ nHop t = 0) := by
+  obtain ⟨t, ht⟩ := cferCount_terminates A hA hex batch s0 h0
+  exact ⟨t, ht, (cfer_result A hA hex batch s0 t h0 ht).2.2⟩
+
 end Droop
